@@ -27,11 +27,12 @@ def cases(tier, rng, run):
     # positions: x (param), t[0], t[1] (tuple elements), return
     for opts in itertools.product([0, 1], repeat=4):
         for pattern in itertools.product(vals, repeat=4):
-            for spell in (["1"] if tier == "quick" else ["1", "4", "5", "7"]):
+            # `FloatTensor!` = the annotation object is constructed with optional=True: only the HINT decides
+            for spell, ctor in ([("1", ""), ("1", "!")] if tier == "quick" else [(s, c) for s in ("1", "4", "5", "7") for c in ("", "!")]):
                 specs, vs = [], []
                 for i, (o, p) in enumerate(zip(opts, pattern)):
                     sh, good, bad = SHAPES[i % 3]
-                    specs.append(f"FloatTensor,{spell if o else '0'},{sh}")
+                    specs.append(f"FloatTensor{ctor},{spell if o else '0'},{sh}")
                     vs.append("N" if p == "N" else f"T,0:float32,{'.'.join(map(str, good if p == 'ok' else bad))}")
                 line = f"CALL\tfunc:pos\t-\t\tP|x|S|{specs[0]}|{vs[0]}\tP|t|T|{specs[1]};{specs[2]}|U:{vs[1]};{vs[2]}\tR|S|{specs[3]}|{vs[3]}"
                 out.append(Case(line, "exh"))
